@@ -10,6 +10,7 @@ import (
 	"a0verif/ref"
 
 	"github.com/islishude/bip39"
+	"github.com/islishude/bip39/zzclock"
 )
 
 type C09Job struct {
@@ -30,6 +31,7 @@ type C09Case struct {
 	Lang  int    `json:"lang"`
 	State string `json:"state,omitempty"`
 	Seed  uint64 `json:"seed,omitempty"`
+	Idle  bool   `json:"idle,omitempty"` // ent: simulated time passes before the call (clock seam)
 }
 
 type C09Viol struct {
@@ -64,6 +66,9 @@ type C09Verdict struct {
 	Out    plan.Outcome `json:"outcome"`
 }
 
+// idleMs: simulated idle periods before a call (just past plausible timeouts and sweep intervals)
+var idleMs = []int64{1100, 5100, 61000, 301000, 3601000, 90000000, 34560000000}
+
 func stateDev(state string, seed uint64) *plan.Dev {
 	d := &plan.Dev{Seed: seed}
 	switch state {
@@ -85,6 +90,7 @@ func stateDev(state string, seed uint64) *plan.Dev {
 			d.Script = append(d.Script, plan.DevStep{})
 		}
 	case "afterfail": // a working source; the call before this one met a source that failed part-way
+	case "afteridle": // a working source; simulated time has passed since the previous call (clock seam)
 	default:
 		panic("c09: state " + state)
 	}
@@ -122,7 +128,7 @@ func JudgeCount(c *C09Case, o *plan.Outcome, d *dev.Dev) (string, string) {
 		return "", ""
 	}
 	switch c.State {
-	case "work", "frag", "afterfail":
+	case "work", "frag", "afterfail", "afteridle":
 		if !o.IsNil {
 			return "rejected", fmt.Sprintf("count %d on a working source failed with %s", c.Count, o.Err)
 		}
@@ -194,6 +200,9 @@ func RunC09Case(c *C09Case, d *dev.Dev) (o plan.Outcome, class, detail string) {
 				_, _ = bip39.NewMnemonic([]int{12, 15, 18, 21, 24}[c.Seed%5], bip39.Language(c.Lang))
 			}()
 		}
+		if c.State == "afteridle" {
+			zzclock.Jump(idleMs[c.Seed%uint64(len(idleMs))])
+		}
 		d.Arm(stateDev(c.State, c.Seed))
 		m, err := bip39.NewMnemonic(c.Count, bip39.Language(c.Lang))
 		o.Out = q(m)
@@ -204,6 +213,9 @@ func RunC09Case(c *C09Case, d *dev.Dev) (o plan.Outcome, class, detail string) {
 	var ent []byte
 	if !c.Nil {
 		ent = plan.NewRand(c.Seed).Bytes(c.Len)
+	}
+	if c.Idle {
+		zzclock.Jump(idleMs[c.Seed%uint64(len(idleMs))])
 	}
 	m, err := bip39.NewMnemonicByEntropy(ent, bip39.Language(c.Lang))
 	o.Out = q(m)
@@ -301,7 +313,7 @@ func RunC09(job *C09Job, d *dev.Dev, cases []C09Case) *C09Result {
 		langs := job.Langs
 		li := 0
 		run := func(n int, isNil bool) {
-			one(C09Case{Kind: "ent", Len: n, Nil: isNil, Lang: langs[li%len(langs)], Seed: rng.Uint64()})
+			one(C09Case{Kind: "ent", Len: n, Nil: isNil, Lang: langs[li%len(langs)], Seed: rng.Uint64(), Idle: li%7 == 3})
 			li++
 		}
 		run(0, true)
